@@ -124,6 +124,8 @@ class Host(HostBase):
         return None
 
     def getattr(self, v: AV, name: str, node: Any = None) -> AV:
+        if isinstance(v, PyTuple) and v.fields is not None and name in v.fields:
+            return v.items[v.fields.index(name)]
         if isinstance(v, Inst):
             if name in v.attrs:
                 return v.attrs[name]
@@ -525,6 +527,21 @@ class Host(HostBase):
 
     # ---------------------------------------------------------------- binop
     def binop(self, op: str, a: AV, b: AV, node: Any = None, inplace: bool = False) -> AV:
+        if isinstance(a, PySet) and isinstance(b, PySet) and op in ("BitOr", "BitAnd", "Sub", "BitXor"):
+            ka, kb = set(a.items), set(b.items)
+            keys = {"BitOr": ka | kb, "BitAnd": ka & kb, "Sub": ka - kb, "BitXor": ka ^ kb}[op]
+            out = PySet(depth=self.i.loop_depth, oid=self.ctx.new_id())
+            for k in keys:
+                out.items.add(k)
+                out.keys_av[k] = a.keys_av[k] if k in a.keys_av else b.keys_av[k]
+            return out
+        if isinstance(a, PyDict) and isinstance(b, PyDict) and op == "BitOr":
+            out_d = PyDict(depth=self.i.loop_depth, oid=self.ctx.new_id())
+            for src in (a, b):
+                for k, v in src.items.items():
+                    out_d.items[k] = v
+                    out_d.keys_av[k] = src.keys_av[k]
+            return out_d
         if isinstance(a, Const) and isinstance(b, Const):
             try:
                 x, y = a.value, b.value
